@@ -22,7 +22,7 @@ def consts(kind, c, emit, prop=None):
     s = "Size = %d MOO = %d AL = %d MaxTs = %d MaxEv = %d ChanCap = %d Reanchor = TRUE Emit = %s" % (
         c["size"], c["moo"], c["al"], c["maxts"], c["maxev"], c.get("chancap", 100), "TRUE" if emit else "FALSE")
     if kind == "sliding":
-        s += " Slide = %d LateAll = TRUE" % c["slide"]
+        s += " Slide = %d LateAll = TRUE RegisterEarly = %s" % (c["slide"], "FALSE" if c.get("register_late") else "TRUE")
     return s
 
 
@@ -31,7 +31,7 @@ def model_check(res, kind, c, workers=8, timeout=900):
     cfg = "SPECIFICATION Spec\nCONSTANTS %s\nINVARIANTS %s\nPROPERTY WmMonotone\nVIEW View\nCHECK_DEADLOCK FALSE\n" % (consts(kind, c, False, res.prop), invs)
     if kind == "session":
         cfg = "SPECIFICATION Spec\nCONSTANTS %s\nINVARIANTS DeliveriesOK NoLoss NoSplit WmOK NoLateDrop\nVIEW View\nCHECK_DEADLOCK FALSE\n" % consts(kind, c, False, res.prop)
-    if c["al"] > 0 and kind == "tumbling" and "LateUpdateOvertakes" in vlib.known_devs(res.prop):
+    if c["al"] > 0 and kind in ("tumbling", "sliding") and "LateUpdateOvertakes" in vlib.known_devs(res.prop):
         cfg = cfg.replace("INVARIANTS DeliveriesOK", "INVARIANTS OneFirstFiring DeliveriesOKDev")
     r = vlib.tlc(SPEC, MODULE[kind], cfg, workers=workers, timeout=timeout)
     res.add_model(MODULE[kind], r, dict(c, kind=kind))
